@@ -19,6 +19,15 @@ from refbufr import frame, codec, tables as rtables, tree as rtree, walker as rw
 
 PID = 'C20'
 DEF_TEMPLATE = [103000, 31001, 1, 2, 3, 101000, 31001, 300004, 105000, 31001, 300003, 205064, 101000, 31001, 30]
+# the same layout in other spellings (the data section is bit for bit the same, except for the 16-bit factors of the last):
+# 300004 written out, 300003 written out, both, and 031002 as replication factors
+_B_OUT = [111000, 31001, 10, 11, 12, 13, 14, 15, 16, 17, 18, 19, 20]
+_D_OUT = [107000, 31001, 10, 11, 12, 205064, 101000, 31001, 30]
+DEF_TEMPLATES = [DEF_TEMPLATE,
+                 DEF_TEMPLATE[:5] + _B_OUT + DEF_TEMPLATE[8:],
+                 DEF_TEMPLATE[:8] + _D_OUT,
+                 DEF_TEMPLATE[:5] + _B_OUT + _D_OUT,
+                 [103000, 31002, 1, 2, 3, 101000, 31002, 300004, 105000, 31002, 300003, 205064, 101000, 31001, 30]]
 UNITS = ['NUMERIC', 'CODE TABLE', 'FLAG TABLE', 'CCITT IA5', 'M', 'K', 'PA']
 
 
@@ -30,8 +39,9 @@ def pad(s, n, right=False):
 class TableDef(object):
     """one definition message: b = [(id, name, unit, scale, ref, nbits)], d = [(id, name, [member ids])]"""
 
-    def __init__(self, b, d, edition=4, mv=33, a=None, style=0):
+    def __init__(self, b, d, edition=4, mv=33, a=None, style=0, spelling=0):
         self.b, self.d, self.edition, self.mv, self.a, self.style = b, d, edition, mv, a or [], style
+        self.spelling = spelling      # which of the equivalent section-3 spellings of the dictionary layout (DEF_TEMPLATES)
 
     def raws(self):
         st = self.style
@@ -62,16 +72,16 @@ class TableDef(object):
         return m
 
     def build(self):
-        return gmsg.case_from_raws(self.meta(), DEF_TEMPLATE, subsets=[self.raws()])
+        return gmsg.case_from_raws(self.meta(), DEF_TEMPLATES[self.spelling], subsets=[self.raws()])
 
     def to_json(self):
         return {'b': [list(x) for x in self.b], 'd': [[x[0], x[1], list(x[2])] for x in self.d], 'edition': self.edition,
-                'mv': self.mv, 'a': [list(x) for x in self.a], 'style': self.style}
+                'mv': self.mv, 'a': [list(x) for x in self.a], 'style': self.style, 'spelling': self.spelling}
 
     @staticmethod
     def from_json(d):
         return TableDef([tuple(x) for x in d['b']], [(x[0], x[1], list(x[2])) for x in d['d']], d['edition'], d['mv'],
-                        [tuple(x) for x in d['a']], d.get('style', 0))
+                        [tuple(x) for x in d['a']], d.get('style', 0), d.get('spelling', 0))
 
 
 def overlay(base_mv, defs, local=None):
@@ -278,7 +288,8 @@ def gen_stream(ch):
         # Table A entries (message types); real dictionaries declare several
         a = [('%03d' % ch.int(0, 255), 'DATA CATEGORY %d' % t, 'LINE 2' if t % 2 else '')
              for t in range(ch.weighted([(3, 0), (3, 1), (3, 2), (2, 3), (1, 6)]))]
-        defs.append(TableDef(b, d, ch.choice([3, 4]), ch.choice([33, 25, 40]), a, ch.int(0, 7)))
+        defs.append(TableDef(b, d, ch.choice([3, 4]), ch.choice([33, 25, 40]), a, ch.int(0, 7),
+                             ch.weighted([(4, 0), (1, 1), (1, 2), (1, 3), (1, 4)])))
     # stream order: definitions in order, data messages after at least one of them
     order = []
     datas = []
@@ -427,6 +438,8 @@ def check_stream(sc):
     out.classes.append('another_stream_scanned_in_between')
     if any(len(td.a) > 1 for td in sc.defs):
         out.classes.append('several_table_a_entries')
+    if any(td.spelling for td in sc.defs):
+        out.classes.append('dictionary_layout_in_another_spelling')
     out.classes.append('scan_without_wiring')
     # the last variant hands the decoder's documented options through the scanner, as the command line's decode -m does
     # (wire_template_data=False) -- the definitions must be taken from the message all the same
